@@ -27,7 +27,13 @@ DEEP_CLASSES = {
     "string": ("String", []), "option": ("Option<u64>", []), "zst": ("()", []), "arr": ("[u8; 2]", []),
     "pA": ("A", ["A"]), "pB": ("B", ["B"]), "vI": ("Vec<I>", ["I"]), "aI": ("[I; 2]", ["I"]), "oI": ("Option<I>", ["I"]),
     "nI": ("G1<I>", ["I"]), "cfI": ("ControlFlow<u16, I>", ["I"]), "g2I": ("G2<u8, Vec<I>>", ["I"]), "ph": ("PhantomData<Q>", ["Q"]), "cN": ("[u16; N]", ["N"]),
+    # the internal parameter inside types that are not plain paths (tuples, nested arrays, boxed slices, ranges)
+    "tI": ("(I, I)", ["I"]), "t1I": ("(I,)", ["I"]), "bI": ("Box<[I]>", ["I"]), "rI": ("core::ops::RangeTo<I>", ["I"]), "aaI": ("[[I; 2]; 1]", ["I"]),
+    "ovI": ("Option<Vec<I>>", ["I"]), "vtI": ("Vec<(I, I)>", ["I"]), "bdI": ("core::ops::Bound<I>", ["I"]),
 }
+# classes in which the internal parameter must be zero-copy (tuples and ranges are zero-copy only)
+ZERO_ONLY_I = {"tI", "t1I", "rI", "vtI"}
+NONPATH_I = ["tI", "t1I", "bI", "rI", "aaI", "ovI", "vtI", "bdI"]
 ZERO_CLASSES = {
     "u8": ("u8", []), "prim": ("u32", []), "u64": ("u64", []), "f64": ("f64", []), "zstruct": ("P1", []), "zst": ("()", []), "arr": ("[u16; 3]", []),
     "tup": ("(u16, u16)", []), "pA": ("A", ["A"]), "ph": ("PhantomData<Q>", ["Q"]), "cN": ("[u8; N]", ["N"]), "zenum": ("EU", []),
@@ -90,7 +96,11 @@ def enum_structs(tier):
                 need = needed_of(classes, DEEP_CLASSES)
                 # a parameter is used either as a field type or inside other types: A/B only as field types, I only inside
                 kinds = ["zero", "deep"] if "I" in need else ["-"]
-                if "nI" in classes:
+                if any(c in ZERO_ONLY_I for c in classes):
+                    kinds = ["zero"]
+                    if "nI" in classes:
+                        continue
+                elif "nI" in classes:
                     kinds = ["deep"] if "I" in need else kinds  # G1<I> is deep-copy: Vec<G1<I>> not involved, any I works; keep one
                 for ik in kinds:
                     attr_sets = [((), "none")] if nf > 1 else [((), "none"), (("deep_copy",), "deepattr"), (("repr(C)",), "reprc")]
@@ -124,6 +134,18 @@ def enum_structs(tier):
                         d = D.E("X", [Variant("U", "unit", []), Variant("T", "tuple", [(str(i), t) for i, (_, t) in enumerate(fields)])], (), ps)
                     d.extra_where = extra_where
                     out.append((f"b.{kind}.{'+'.join(classes)}.{bstyle}.{'dflt' if dflt else 'nodflt'}", d))
+    # the internal parameter inside non-path types, in the quick tier too
+    if tier != "thorough":
+        for x in NONPATH_I:
+            for classes in [(x,), ("prim", x), (x, "pA")]:
+                need = needed_of(classes, DEEP_CLASSES)
+                for ik in (["zero"] if x in ZERO_ONLY_I else ["zero", "deep"]):
+                    ps = mk_params(need, False, ik, "none", False)
+                    for style in ("named", "tuple"):
+                        fields = [((f"f{i}" if style == "named" else str(i)), DEEP_CLASSES[c][0]) for i, c in enumerate(classes)]
+                        out.append((f"s.{style}.{'+'.join(classes)}.deep.none.{ik}", D.S("X", fields, (), ps, style)))
+                    fields = [(str(i), DEEP_CLASSES[c][0]) for i, c in enumerate(classes)]
+                    out.append((f"k.enum.{'+'.join(classes)}.deep.{ik}.nonpath", D.E("X", [Variant("U", "unit", []), Variant("T", "tuple", fields), Variant("N", "named", [(f"x{i}", t) for i, (_, t) in enumerate(fields)])], (), ps)))
     # const parameter declared BEFORE the type parameters
     for kind in ("struct", "enum"):
         for zero in (False, True):
